@@ -2,13 +2,14 @@
 import PyndlDriver.OpsCreate
 import PyndlDriver.OpsText
 import PyndlDriver.OpsCorpus
+import PyndlDriver.OpsAct
 
 open Lean
 
 namespace PyndlDriver
 
 def plugins : List (String → Json → Option (M Json)) :=
-  [handleCreate?, handleText?, handleCorpus?]
+  [handleCreate?, handleText?, handleCorpus?, handleAct?]
 
 def handlePlugin? (op : String) (j : Json) : Option (M Json) :=
   plugins.findSome? (fun h => h op j)
